@@ -51,6 +51,11 @@ pub enum Op {
     MakeEmpty(u16),
     /// make the case's hot file an empty file (creating it if it is gone)
     HotEmpty,
+    /// (which file, destination dir, destination name): give another path exactly the content an
+    /// existing file has (a copy: new path, but not new content)
+    CopyContent(u16, u16, u16),
+    /// the same with the case's hot file as the source
+    HotCopy(u16, u16),
 }
 
 pub const BIG_SIZES: [usize; 9] = [
@@ -127,6 +132,7 @@ pub struct Hist {
     pub tail_edit: bool,
     pub old_mtime: bool,
     pub empty_file: bool,
+    pub copied: bool,
 }
 
 fn is_sentinel(p: &str) -> bool {
@@ -160,6 +166,7 @@ impl Hist {
             tail_edit: false,
             old_mtime: false,
             empty_file: false,
+            copied: false,
         };
         // initial content: whatever install_config wrote plus a few ordinary files
         for p in HOT {
@@ -459,6 +466,35 @@ impl Hist {
                 self.work.insert(p.clone(), vec![]);
                 self.empty_file = true;
                 format!("make empty {:?}", p)
+            }
+            Op::CopyContent(_, d, n) | Op::HotCopy(d, n) => {
+                let src = match op {
+                    Op::HotCopy(..) => {
+                        if !self.work.contains_key(&self.hot) {
+                            return Ok("noop".into());
+                        }
+                        self.hot.clone()
+                    }
+                    Op::CopyContent(f, ..) => {
+                        let e = self.editable();
+                        if e.is_empty() {
+                            return Ok("noop".into());
+                        }
+                        e[pick(*f, e.len())].clone()
+                    }
+                    _ => unreachable!(),
+                };
+                let dir = DIRS[pick(*d, DIRS.len())];
+                let name = NAMES[pick(*n, NAMES.len())];
+                let dst = if dir.is_empty() { format!("copy-of-{}", name) } else { format!("{}/copy-of-{}", dir, name) };
+                if dst == src {
+                    return Ok("noop".into());
+                }
+                let c = self.work[&src].clone();
+                self.env.write_file(&dst, &c);
+                self.work.insert(dst.clone(), c);
+                self.copied = true;
+                format!("copy {:?} to {:?}", src, dst)
             }
             Op::Rewrite(f) => {
                 let e = self.editable();
